@@ -5,11 +5,14 @@ package main
 // here is a small package given as such an environment; gozodgen is run on its Go rendering with a time limit.
 //
 //	c13 term <fields of Root> | <env>        ok | crash | timeout | exit:<n>
+//	c13 tconv <fields of Root> | <env>       types=<reflect.Type of every converted field, by Kind, joined by ';'>
 //
 // Type syntax (prefix, no spaces):  B int · P<t> *t · S<t> []t · A<t> [2]t · M<k><v> map[k]v · N<i>. the named type T<i> ·
 // T time.Time · I any.   Environment: entries separated by ';', entry i is the underlying type of T<i>; a struct type is
 // written  R:<field>,<field>…  (its fields are converted too, each carrying a gozod tag).
 import (
+	"bytes"
+	"encoding/json"
 	"fmt"
 	"go/ast"
 	"go/importer"
@@ -17,6 +20,7 @@ import (
 	"go/token"
 	"go/types"
 	"os"
+	"os/exec"
 	"path/filepath"
 	"strconv"
 	"strings"
@@ -129,49 +133,43 @@ func invalidRecursive(src string) bool {
 	return bad
 }
 
-// namedCaseIfs is the structure fact the Lean transcription of typesToReflectType depends on: the number of `if`
-// statements in the `case *types.Named:` clause of its type switch.  As written there is one (time.Time) and the clause
-// ends in an unguarded recursive call on typ.Underlying() — GenTerm.convF; with a stack check in front of the recursion
-// there are two — GenTerm.convV.  Anything else: the driver refuses the op (broken tie).
-func namedCaseIfs(repo string) int {
-	fset := token.NewFileSet()
-	f, err := parser.ParseFile(fset, filepath.Join(repo, "cmd", "gozodgen", "analyzer.go"), nil, 0)
-	if err != nil {
-		die("term: %v", err)
+// analyzedTypes runs the REAL analyzer (hook GOZODGEN_VERIF_TYPES, wide.go) on the package and returns, per struct, the
+// reflect.Type it built for every field, rendered by Kind.
+func analyzedTypes(gen, dir string) (map[string][]string, string) {
+	cmd := exec.Command(gen)
+	cmd.Env = append(os.Environ(), "GOZODGEN_VERIF_TYPES="+dir)
+	var out, errb bytes.Buffer
+	cmd.Stdout, cmd.Stderr = &out, &errb
+	done := make(chan error, 1)
+	if err := cmd.Start(); err != nil {
+		return nil, "start:" + err.Error()
 	}
-	n := -1
-	ast.Inspect(f, func(x ast.Node) bool {
-		cc, ok := x.(*ast.CaseClause)
-		if !ok || len(cc.List) != 1 {
-			return true
-		}
-		st, ok := cc.List[0].(*ast.StarExpr)
-		if !ok {
-			return true
-		}
-		se, ok := st.X.(*ast.SelectorExpr)
-		if !ok || se.Sel.Name != "Named" {
-			return true
-		}
-		if id, ok := se.X.(*ast.Ident); !ok || id.Name != "types" {
-			return true
-		}
-		n = 0
-		for _, s := range cc.Body {
-			if _, ok := s.(*ast.IfStmt); ok {
-				n++
+	go func() { done <- cmd.Wait() }()
+	select {
+	case err := <-done:
+		if err != nil {
+			if strings.Contains(errb.String(), "stack overflow") || strings.Contains(errb.String(), "fatal error") {
+				return nil, "crash"
 			}
+			return nil, "exit"
 		}
-		return false
-	})
-	if n < 0 {
-		die("term: no `case *types.Named:` clause found in cmd/gozodgen/analyzer.go (the transcription GenTerm.convF has lost its original)")
+	case <-time.After(60 * time.Second):
+		cmd.Process.Kill()
+		return nil, "timeout"
 	}
-	return n
+	for _, l := range strings.Split(out.String(), "\n") {
+		if rest, ok := strings.CutPrefix(l, "VERIFTYPES "); ok {
+			res := map[string][]string{}
+			if err := json.Unmarshal([]byte(rest), &res); err != nil {
+				return nil, "badjson"
+			}
+			return res, ""
+		}
+	}
+	return nil, "nooutput"
 }
 
 func emitTerm(o *hx.Out, tmp, gen string, rng *hx.Rng, thorough bool) {
-	ifs := namedCaseIfs(*repoFlag)
 	cases := append([]termCase{}, termCases...)
 	// random environments: 2–4 named types, each a struct or a slice / map / pointer of a random other name
 	n := 6
@@ -220,7 +218,28 @@ func emitTerm(o *hx.Out, tmp, gen string, rng *hx.Rng, thorough bool) {
 		if env == "" {
 			env = "-"
 		}
-		o.Emit(fmt.Sprintf("c13 term %s | %s | ifs=%d # %s: %s", strings.Join(tc.fields, ","), env, ifs, tc.what, strings.ReplaceAll(strings.TrimPrefix(src, "package main\n\n"), "\n", " ")), obs)
+		what := tc.what + ": " + strings.ReplaceAll(strings.TrimPrefix(src, "package main\n\n"), "\n", " ")
+		o.Emit(fmt.Sprintf("c13 term %s | %s # %s", strings.Join(tc.fields, ","), env, what), obs)
 		o.Count("term:" + obs)
+		// the RESULT of the conversion: the reflect.Type the real analyzer built for every field that is converted (Root's
+		// fields, then the fields of the struct types of the environment in order) — against GenTerm.convV in the driver
+		tobs := ""
+		// (on a copy that holds the source file only: a directory that already contains generated files is another case — op `regen`)
+		tdir := filepath.Join(tmp, "termt", strconv.Itoa(ci))
+		os.MkdirAll(tdir, 0o755)
+		os.WriteFile(filepath.Join(tdir, "m.go"), []byte(src+"\nfunc main() {}\n"), 0o644)
+		if ts, bad := analyzedTypes(gen, tdir); bad != "" {
+			tobs = bad
+		} else {
+			all := append([]string{}, ts["Root"]...)
+			for i, e := range tc.env {
+				if strings.HasPrefix(e, "R:") {
+					all = append(all, ts["T"+strconv.Itoa(i)]...)
+				}
+			}
+			tobs = "types=" + strings.Join(all, ";")
+		}
+		o.Emit(fmt.Sprintf("c13 tconv %s | %s # %s", strings.Join(tc.fields, ","), env, what), tobs)
+		o.Count("tconv:" + strings.SplitN(tobs, "=", 2)[0])
 	}
 }
